@@ -1189,8 +1189,25 @@ impl<T: Object> Object for NameTree<T> {
 }
 
 impl<T: ObjectWrite> ObjectWrite for NameTree<T> {
-    fn to_primitive(&self, _update: &mut impl Updater) -> Result<Primitive> {
-        todo!("impl ObjectWrite for NameTree")
+    fn to_primitive(&self, update: &mut impl Updater) -> Result<Primitive> {
+        let mut dict = Dictionary::new();
+        if let Some((ref min, ref max)) = self.limits {
+            dict.insert("Limits", vec![Primitive::String(min.clone()), Primitive::String(max.clone())]);
+        }
+        match self.node {
+            NameTreeNode::Leaf(ref items) => {
+                let mut names = Vec::with_capacity(items.len() * 2);
+                for &(ref name, ref value) in items {
+                    names.push(Primitive::String(name.clone()));
+                    names.push(value.to_primitive(update)?);
+                }
+                dict.insert("Names", names);
+            }
+            NameTreeNode::Intermediate(ref kids) => {
+                dict.insert("Kids", kids.iter().map(|r| r.get_inner().into()).collect_vec());
+            }
+        }
+        Ok(dict.into())
     }
 }
 
